@@ -16,14 +16,16 @@ Record case := mkCase {
 Definition flat_dk (d : dk) : list Z := match d with DFactory c s => [1; c; s] | DNative n => [0; n; 0] end.
 Definition flat_oz (o : option Z) : Z := match o with Some a => a | None => -1 end.
 Definition synthz (x : synth) : Z := match x with SNone => 0 | SBonded => 1 | SUnbonding => 2 end.
-Definition flat_pos (p : position) : list Z := [p_id p; p_owner p; p_pool p; p_liq p; p_lock p; b2z (p_full p)].
+(* the lock link is reported as the chain reports it: 0 unless the linked lock still exists *)
+Definition flat_pos (s : state) (p : position) : list Z :=
+  [p_id p; p_owner p; p_pool p; p_liq p; (if pos_locked s p then p_lock p else 0); b2z (p_full p)].
 Definition flat_lock (l : lock) : list Z :=
   [l_id l; l_owner l; flat_oz (l_recv l)] ++ flat_dk (l_denom l) ++
   [l_amt l; l_dur l; b2z (l_unlocking l); synthz (l_synth l); flat_oz (l_conn l)].
 Definition flat_denom (d : denom) : list Z := [d_creator d; d_sub d; flat_oz (d_admin d); flat_oz (d_hook d); d_desc d].
 
 Definition flat_state (w : list (addr * dk)) (s : state) : list Z :=
-  [-1] ++ flat_map flat_pos (positions s) ++ [-2; next_pos s] ++ flat_map flat_lock (locks s) ++ [-3; last_lock s] ++
+  [-1] ++ flat_map (flat_pos s) (positions s) ++ [-2; next_pos s] ++ flat_map flat_lock (locks s) ++ [-3; last_lock s] ++
   flat_map flat_denom (denoms s) ++ [-4] ++ map (fun x => bal_of (bals s) (fst x) (snd x)) w.
 
 Definition model_obs (c : case) : list Z :=
